@@ -241,6 +241,14 @@ func getSqlNullValue(value interface{}) interface{} {
 	if value == nil {
 		return nil
 	}
+	// bytes scanned as sql.RawBytes (BLOB, BINARY, BIT columns) still belong to the driver, which overwrites
+	// them when the next row is read: an image keeps its own copy
+	if v, ok := value.(sql.RawBytes); ok {
+		if v == nil {
+			return nil
+		}
+		return append([]byte{}, v...)
+	}
 	if v, ok := value.(sql.NullString); ok {
 		if v.Valid {
 			return v.String
